@@ -22,7 +22,7 @@ from .. import wbrun as R
 from . import c03
 
 PID = 'C15'
-GEN_KW = {'n_cells': 9, 'features': ['names', 'array']}
+GEN_KW = {'n_cells': 9, 'features': ['names', 'array'], 'case_titles': True}
 
 
 def pick_outs(g, s):
